@@ -58,6 +58,7 @@ type XW struct {
 	Gater *conngater.BasicConnectionGater
 	Peers []*ScriptPeer
 	hang  chan struct{} // closed at teardown: releases hanging peers
+	servers []*XServer
 }
 
 type frame struct {
@@ -241,6 +242,16 @@ func (w *XW) teardown() {
 		c, cancel := context.WithTimeout(context.Background(), time.Minute)
 		_ = w.Ex.Stop(c)
 		cancel()
+	}
+	for _, xs := range w.servers {
+		if xs.Srv != nil {
+			_ = xs.Srv.Stop(context.Background())
+		}
+		if xs.Rec != nil {
+			c, cancel := context.WithTimeout(context.Background(), time.Minute)
+			_ = xs.Rec.Store.Stop(c)
+			cancel()
+		}
 	}
 	_ = w.Net.Close()
 	for _, h := range w.Hosts {
